@@ -175,8 +175,8 @@ impl Prop for C05P {
     }
     fn plan(&self, tier: Tier, _seed: u64) -> Plan {
         let mut p = Plan::new(
-            vec![sec("pinned", 200), sec("explicit-programs", tier.pick(40_000, 400_000)), sec("elaboration-of-accepted-programs", tier.pick(30_000, 300_000)), sec("edited-explicit-programs", tier.pick(40_000, 400_000)), crate::fw::sec_ex("small-explicit-programs-exhaustive", crate::gen_small::total_upto(tier.pick(5, 6)).div_ceil(256))],
-            "type-directed generation of fully annotated well-typed programs (polymorphic, higher-order, dependent function types, recursive and mutually recursive groups of 1-5 definitions, forward type aliases, type-level redexes/conditionals/definitions in annotations, integers beyond 64 bits), printed with varied parenthesisation and layout; each must be accepted with a type convertible to the reference checker's and to the intended one; every fully annotated source program of at most 5 (quick) / 6 (thorough) nodes that the reference accepts must be accepted too; for every accepted program of any generator (explicit, inferred, syntactic) the elaborated term is compared with the parse output, holes of the source being the only wildcard; scope-aware edits of explicit programs (another variable in scope, a neighbouring literal, another operator of its class, mirrored comparisons, swapped branches, a definition or an applied binder put around a node, an annotation or a domain named by an alias of its own group; 1-3 edits) that the reference checker still accepts must be accepted with a type convertible to the reference's; non-trivial = distinct accepted program",
+            vec![sec("pinned", 200), sec("explicit-programs", tier.pick(40_000, 400_000)), sec("elaboration-of-accepted-programs", tier.pick(30_000, 300_000)), sec("edited-explicit-programs", tier.pick(40_000, 400_000)), sec("near-miss-coercions", tier.pick(40_000, 400_000)), crate::fw::sec_ex("small-explicit-programs-exhaustive", crate::gen_small::total_upto(tier.pick(5, 6)).div_ceil(256))],
+            "type-directed generation of fully annotated well-typed programs (polymorphic, higher-order, dependent function types, recursive and mutually recursive groups of 1-5 definitions, forward type aliases, type-level redexes/conditionals/definitions in annotations, integers beyond 64 bits), printed with varied parenthesisation and layout; each must be accepted with a type convertible to the reference checker's and to the intended one; every fully annotated source program of at most 5 (quick) / 6 (thorough) nodes that the reference accepts must be accepted too; for every accepted program of any generator (explicit, inferred, syntactic) the elaborated term is compared with the parse output, holes of the source being the only wildcard; scope-aware edits of explicit programs (another variable in scope, a neighbouring literal, another operator of its class, mirrored comparisons, swapped branches, a definition or an applied binder put around a node, an annotation or a domain named by an alias of its own group; 1-3 edits) that the reference checker still accepts must be accepted with a type convertible to the reference's, and so must every near-miss coercion (a value passed from a type with type-level computation in it to an edited copy of that type) that the reference accepts; non-trivial = distinct accepted program",
         );
         p.assumptions = vec![
             "R-core (harness/src/core.rs) implements the typing rules of DESIGN.md A.5/A.6; programs it cannot judge within its fuel are inconclusive".into(),
@@ -248,6 +248,12 @@ impl Prop for C05P {
                     }
                 }
             }
+            "near-miss-coercions" => {
+                let mut r = Rng::for_case(ctx.seed, 6, idx);
+                let c = crate::coerce::gen_coercion(&mut r, false);
+                let src = print(&c.h, &Style::varied(&mut r), idx).text;
+                check_edited(ctx, &c.h, c.shape, &src);
+            }
             "edited-explicit-programs" => {
                 let mut r = Rng::for_case(ctx.seed, 5, idx);
                 let Some((m, kind, src)) = edited_program(&mut r, idx) else { return };
@@ -282,6 +288,11 @@ impl Prop for C05P {
                 let p = gen_program(&mut r, Mode::Explicit);
                 let style = Style::varied(&mut r);
                 print(&p.h, &style, idx).text
+            }
+            "near-miss-coercions" => {
+                let mut r = Rng::for_case(seed, 6, idx);
+                let c = crate::coerce::gen_coercion(&mut r, false);
+                print(&c.h, &Style::varied(&mut r), idx).text
             }
             "edited-explicit-programs" => {
                 let mut r = Rng::for_case(seed, 5, idx);
